@@ -70,6 +70,7 @@ CFGS = {
 }
 
 _TAB = None
+_SHA = {}
 
 
 def table():
@@ -110,9 +111,10 @@ def expect_of(exp):
             out.append({'path': path, 'kind': 'symlink', 'target': cps(tab.target(e['t'])), 'sha': '',
                         'size': [0, 0]})
         else:
-            data = tab.blobdata[e['b']]
+            if e['b'] not in _SHA:
+                _SHA[e['b']] = (hashlib.sha256(tab.blobdata[e['b']]).hexdigest(), len(tab.blobdata[e['b']]))
             out.append({'path': path, 'kind': 'file', 'target': [],
-                        'sha': hashlib.sha256(data).hexdigest(), 'size': limbs(len(data))})
+                        'sha': _SHA[e['b']][0], 'size': limbs(_SHA[e['b']][1])})
     out.sort(key=lambda x: x['path'])
     return out
 
@@ -124,6 +126,11 @@ def sat(x):
     if x is None:
         return -1
     return SAT if x > SAT else x
+
+
+def satl(l):
+    """limbs [blocks, remainder] with the block count saturated"""
+    return [sat(l[0]), l[1]]
 
 
 def _ext(e):
@@ -188,17 +195,17 @@ def judge_view(rep):
                   'loc_stored': sat(t['loc_stored']), 'loc_expected': sat(t['loc_expected'])}
                  for t in rep['tags']]
     v['fes'] = [{'lb': sat(fe['lb']), 'tag': fe['tag'], 'file_type': fe['file_type'],
-                 'strategy': fe['strategy'], 'link_count': fe['link_count'], 'info_len': fe['info_len'],
+                 'strategy': fe['strategy'], 'link_count': fe['link_count'], 'info_len': satl(fe['info_len']),
                  'blocks_recorded': sat(fe['blocks_recorded']), 'perms': sat(fe['perms']),
                  'unique_id': sat(fe['unique_id']), 'ad_type': fe['ad_type'],
                  'ads': [{'len': a['len'], 'type': a['type'], 'pos': sat(a['pos'])} for a in fe['ads']],
-                 'ea_len': sat(fe['ea_len']), 'ad_len': sat(fe['ad_len']), 'ad_sum': fe['ad_sum'],
+                 'ea_len': sat(fe['ea_len']), 'ad_len': sat(fe['ad_len']), 'ad_sum': satl(fe['ad_sum']),
                  'embedded': fe['embedded'], 'fits': fe['fits']}
                 for fe in rep['fes']]
     dirs = []
     for d in rep['dirs']:
         dirs.append({'fe_lb': sat(d['fe_lb']), 'parent_lb': sat(d['parent_lb']), 'path': d['path'],
-                     'info_len': d['info_len'], 'data_len': d['data_len'], 'fid_bytes': d['fid_bytes'],
+                     'info_len': satl(d['info_len']), 'data_len': d['data_len'], 'fid_bytes': d['fid_bytes'],
                      'trailing': d['trailing'],
                      'fids': [{'off': x['off'], 'len': x['len'], 'version': x['version'], 'chars': x['chars'],
                                'is_dir': x['is_dir'], 'is_parent': x['is_parent'], 'deleted': x['deleted'],
@@ -208,7 +215,7 @@ def judge_view(rep):
                                'pad_zero': x['pad_zero'], 'complete': x['complete']}
                               for x in d['fids']]})
     v['dirs'] = dirs
-    v['tree'] = [{'path': t['path'], 'kind': t['kind'], 'size': t['size'], 'target': t['target'],
+    v['tree'] = [{'path': t['path'], 'kind': t['kind'], 'size': satl(t['size']), 'target': t['target'],
                   'sha': t['sha'], 'fe_lb': sat(t['fe_lb'])} for t in rep['tree']]
     v['regions'] = [{'kind': g['kind'], 'owner': sat(g['owner']), 'start': sat(g['start']),
                      'nsect': sat(g['nsect'])} for g in rep['regions']]
@@ -264,7 +271,11 @@ def replay(hid, hist, cfgname):
         if (r == 'ok') != want_ok:
             diverged = True
             break
-    (wres, data, _wlog) = s.master()
+    if steps and steps[-1]['a'] == 'Reopen' and steps[-1]['r'] != 'ok':
+        # the image was written but could not be opened again: there is no object to write from
+        (wres, data) = ('not-attempted', None)
+    else:
+        (wres, data, _wlog) = s.master()
     o = {'id': '%s/%s' % (hid, cfgname), 'steps': steps, 'write': wres, 'image': data, 'hist': hist,
          'cfg': cfgname, 'diverged': diverged}
     if not diverged:
@@ -292,17 +303,68 @@ def observe(o, hash_limit=None):
     return item, rep
 
 
+def light(hist):
+    """history without the expected trees (kept at Reopen steps, where circumstances need them)"""
+    return [dict((k, v) for k, v in a.items() if k != 'exp' or a['a'] == 'Reopen') for a in hist]
+
+
 def _work(args):
+    """replay one behaviour under one configuration; returns per image written
+    (id, sha of the observation body, JSON text of the body, bookkeeping)."""
     (hid, hist, cfgname) = args
     out = []
     for o in replay(hid, hist, cfgname):
         item, rep = observe(o)
-        key = hashlib.sha256(o['image']).hexdigest() if o.get('image') is not None else 'none'
-        meta = {'id': o['id'], 'hist': o['hist'], 'cfg': o['cfg'], 'steps': o['steps'],
-                'diverged': o.get('diverged', False), 'image_sha': key, 'write': o['write'],
+        meta = {'id': o['id'], 'hist': light(o['hist']), 'cfg': o['cfg'], 'steps': o['steps'],
+                'diverged': o.get('diverged', False), 'write': o['write'],
+                'ntree': len(item['rep']['tree']) if rep is not None else None,
+                'crossing': sum(1 for d in rep['dirs'] for f in d['fids'] if f['crosses']) if rep is not None else 0,
+                'ucs2': sum(1 for d in rep['dirs'] for f in d['fids'] if f['cid'] == 16) if rep is not None else 0,
                 'facts': facts(rep) if rep is not None else {}}
-        out.append((item, meta))
+        item.pop('id')
+        body = json.dumps(item, sort_keys=True, separators=(',', ':'))
+        out.append((o['id'], hashlib.sha256(body.encode()).hexdigest(), body, meta))
     return out
+
+
+def _judge_shard(texts):
+    """texts: list of (id, body json).  One TLC run of Judge_Udf over them."""
+    fd, path = tempfile.mkstemp(prefix='verif-obs-', suffix='.json')
+    try:
+        with os.fdopen(fd, 'w') as f:
+            f.write('{"items":[')
+            f.write(','.join('{"id":%s,%s' % (json.dumps(i), b[1:]) for (i, b) in texts))
+            f.write(']}')
+        out, stats = tlc.run_tlc('Judge_Udf', judge.JUDGE_CFG, workers=1, env={'OBS_FILE': path},
+                                 timeout=3600, heap='3g')
+    finally:
+        os.unlink(path)
+    fails = {}
+    done = None
+    for tag, val in tlc.tagged_lines(out):
+        if tag == 'DIAG':
+            fails[val['id']] = sorted(val['clauses'])
+        elif tag == 'DONE':
+            done = val['n']
+    tlc.need_ok(out, stats, 'Judge_Udf')
+    if done != len(texts):
+        raise tlc.TlcError('Judge_Udf judged %s of %d observations' % (done, len(texts)))
+    return fails, stats
+
+
+def judge_texts(texts, shards=8):
+    """TLC evaluates the clauses: 8 single-worker JVMs side by side (see AGENT_CONVENTIONS)."""
+    from concurrent.futures import ThreadPoolExecutor
+    if len(texts) < 64:
+        shards = 1
+    parts = [texts[k::shards] for k in range(shards)]
+    parts = [p for p in parts if p]
+    with ThreadPoolExecutor(len(parts)) as ex:
+        rs = list(ex.map(_judge_shard, parts))
+    fails = {}
+    for f, _ in rs:
+        fails.update(f)
+    return fails, [st for _, st in rs]
 
 
 # ---------------------------------------------------------------- circumstances (for known findings)
@@ -478,14 +540,11 @@ def circumstance(clause, meta):
         return sig
     if meta.get('diverged'):
         # the implementation left the model's behaviour at the last step (reported by
-        # StepsAccepted / StepsRefused); what the image looks like afterwards is attributed to it
+        # StepsAccepted / StepsRefused); the image it wrote afterwards is judged all the same
         last = meta['steps'][-1] if meta['steps'] else {}
         sig['after_divergence'] = '%s:%s' % (last.get('a', '-'), last.get('why', '') or last.get('r', ''))
         if last.get('k') is not None:
             sig['name'] = _last_name_class(hist[last['k']])
-        if clause == 'ImageWritten':
-            sig['write'] = meta.get('write', '')
-        return sig
     sig.update(hist_circumstances(hist))
     if clause == 'ImageWritten':
         sig['write'] = meta.get('write', '')
@@ -617,7 +676,7 @@ class _Zeros(io.RawIOBase):
         return len(data)
 
 
-def big_file_case(ctx, size, hash_limit=1 << 26):
+def big_file_case(ctx, size, hash_limit=None):
     """one file of `size` bytes (several allocation descriptors, 64-bit information length)."""
     import pycdlib
     t0 = det.real_time()
@@ -632,11 +691,20 @@ def big_file_case(ctx, size, hash_limit=1 << 26):
         with open(path, 'wb') as f:
             iso.write_fp(f)
         iso.close()
-        half = hash_limit // 2
         h = hashlib.sha256()
-        h.update(src.chunk(0, half))
-        h.update(src.chunk(size - half, half))
-        expect = [{'path': [cps('big')], 'kind': 'file', 'target': [], 'sha': 'p:' + h.hexdigest(),
+        if hash_limit is None:
+            pos = 0
+            while pos < size:
+                k = min(1 << 24, size - pos)
+                h.update(src.chunk(pos, k))
+                pos += k
+            want = h.hexdigest()
+        else:
+            half = hash_limit // 2
+            h.update(src.chunk(0, half))
+            h.update(src.chunk(size - half, half))
+            want = 'p:' + h.hexdigest()
+        expect = [{'path': [cps('big')], 'kind': 'file', 'target': [], 'sha': want,
                    'size': limbs(size)},
                   {'path': [cps(REALISATION['names']['u']['udf'])], 'kind': 'file', 'target': [],
                    'sha': hashlib.sha256(b'tail').hexdigest(), 'size': [0, 4]}]
@@ -647,16 +715,19 @@ def big_file_case(ctx, size, hash_limit=1 << 26):
                 rep = udfdec.decode(mm, hash_limit=hash_limit)
             finally:
                 mm.close()
-        item = {'id': 'big/%d' % size, 'write': 'ok', 'steps': [{'a': 'AddFp', 'x': 'ok', 'r': 'ok'}],
+        item = {'write': 'ok', 'steps': [{'a': 'AddFp', 'x': 'ok', 'r': 'ok'}],
                 'rep': judge_view(rep), 'expect': expect}
         hist = [{'a': 'AddFp', 'blob': 'big:%d' % size, 'iso': ['BIG'], 'udf': ['big'], 'x': 'ok'}]
-        meta = {'id': item['id'], 'hist': hist, 'cfg': 'udf', 'steps': [{'a': 'AddFp', 'x': 'ok', 'r': 'ok', 'k': 0}],
-                'diverged': False, 'image_sha': 'big', 'write': 'ok', 'facts': facts(rep)}
+        meta = {'id': 'big/%s' % hex(size), 'hist': hist, 'cfg': 'udf',
+                'steps': [{'a': 'AddFp', 'x': 'ok', 'r': 'ok', 'k': 0}],
+                'diverged': False, 'write': 'ok', 'ntree': len(rep['tree']), 'facts': facts(rep)}
+        body = json.dumps(item, sort_keys=True, separators=(',', ':'))
         fe = [x for x in rep['fes'] if x['file_type'] == 5 and len(x['ads']) > 1]
-        ctx.coverage['big_file'] = {'bytes': hex(size), 'allocation_descriptors': len(fe[0]['ads']) if fe else 0,
+        ctx.coverage.setdefault('big_files', []).append({'bytes': hex(size), 'allocation_descriptors': len(fe[0]['ads']) if fe else 0,
                                     'image_sectors': rep['nsect'], 'wall_s': round(det.real_time() - t0, 1),
-                                    'hash': 'first and last %d bytes' % half}
-        return item, meta
+                                    'hash': 'all bytes' if hash_limit is None else
+                                            'first and last %d bytes' % (hash_limit // 2)})
+        return (meta['id'], hashlib.sha256(body.encode()).hexdigest(), body, meta)
     finally:
         shutil.rmtree(work, ignore_errors=True)
 
@@ -665,22 +736,27 @@ def big_file_case(ctx, size, hash_limit=1 << 26):
 def plan(tier):
     base = {'Targets': ['t1', 't3'], 'IsoIds': ['i1', 'i2'], 'MaxDepth': 2, 'MaxGen': 1}
     if tier == 'quick':
+        small = dict(base, Names=['a', 'u'], Blobs=['z', 't'], Targets=['t3'], FillKinds=['cross'],
+                     MaxEntries=3, Dump='all')
         return {
-            'bfs': [dict(base, Names=['a', 'u'], Blobs=['z', 't'], Targets=['t3'], FillKinds=['cross'],
-                         MaxEntries=3, MaxLen=3, MaxRefuse=1, Dump='all')],
+            # every accepted history of 3 calls, every history of 2 calls with one refused call
+            'bfs': [dict(small, MaxLen=3, MaxRefuse=0), dict(small, MaxLen=2, MaxRefuse=1)],
             'sim': [dict(base, Names=['a', 'e', 'u', 'd'], Blobs=['z', 'o', 's', 't'],
                          Targets=['t1', 't2', 't3'], FillKinds=['cross', 'exact', 'two'],
                          MaxEntries=5, MaxLen=9, MaxRefuse=1, MaxGen=2, Dump='final')],
-            'sim_num': 40, 'big': None}
+            'sim_num': 30, 'big': [((2 << 30) + 4097, 1 << 26)]}
+    small = dict(base, Names=['a', 'u'], Blobs=['z', 't'], Targets=['t3'], FillKinds=['cross'],
+                 MaxEntries=4, Dump='all')
     return {
-        'bfs': [dict(base, Names=['a', 'u', 'd'], Blobs=['z', 't'], Targets=['t3'], FillKinds=['cross', 'exact'],
+        'bfs': [dict(small, MaxLen=4, MaxRefuse=0),
+                dict(base, Names=['a', 'u', 'd'], Blobs=['z', 't'], Targets=['t3'], FillKinds=['cross', 'exact'],
                      MaxEntries=4, MaxLen=3, MaxRefuse=1, Dump='all'),
                 dict(base, Names=['e', 'd'], Blobs=['o', 's'], Targets=['t2'], FillKinds=['two'],
-                     MaxEntries=4, MaxLen=4, MaxRefuse=1, MaxGen=1, Dump='all')],
+                     MaxEntries=4, MaxLen=3, MaxRefuse=1, Dump='all')],
         'sim': [dict(base, Names=['a', 'e', 'u', 'd'], Blobs=['z', 'o', 's', 't'],
                      Targets=['t1', 't2', 't3'], FillKinds=['cross', 'exact', 'two'],
                      MaxEntries=6, MaxLen=12, MaxRefuse=1, MaxGen=3, Dump='final')],
-        'sim_num': 400, 'big': (3 << 30) + 12345}
+        'sim_num': 400, 'big': [((3 << 30) + 12345, None), ((4 << 30) + 2049, 1 << 26)]}
 
 
 def run(ctx):
@@ -718,9 +794,9 @@ def run(ctx):
     for n, k in enumerate(order):
         (src, h) = hists[k]
         hid = '%s%05d' % (src, n)
-        # every behaviour without Joliet/Rock Ridge; every second one (and all deep ones) with both
+        # every behaviour without Joliet/Rock Ridge; every third one (and all deep ones) with both
         jobs.append((hid, h, 'udf'))
-        if src == 's' or n % 2 == 0:
+        if src == 's' or n % 3 == 0:
             jobs.append((hid, h, 'udf+jol+rr'))
     t0 = det.real_time()
     mp = multiprocessing.get_context('fork')
@@ -729,49 +805,52 @@ def run(ctx):
     pairs = [x for r in res for x in r]
     print('replayed %d behaviours x configurations -> %d images in %.1fs' % (len(jobs), len(pairs), det.real_time() - t0))
     sys.stdout.flush()
-    if pl['big']:
+    for (size, limit) in pl['big']:
         try:
-            pairs.append(big_file_case(ctx, pl['big']))
+            pairs.append(big_file_case(ctx, size, hash_limit=limit))
         except Exception as e:  # pylint: disable=broad-except
-            ctx.coverage['big_file'] = 'not covered: %s: %s' % (type(e).__name__, str(e)[:200])
-    else:
-        ctx.coverage['big_file'] = 'not covered in the quick tier (thorough: one file > 3 GiB)'
+            ctx.coverage.setdefault('big_files', []).append(
+                {'bytes': hex(size), 'not_covered': '%s: %s' % (type(e).__name__, str(e)[:200])})
+    print('multi-gigabyte cases: %s' % json.dumps(ctx.coverage.get('big_files')))
+    sys.stdout.flush()
 
     # identical observations are judged once
     uniq = {}
     metas = {}
-    for (item, meta) in pairs:
-        metas[item['id']] = meta
-        body = dict(item)
-        body.pop('id')
-        k = hashlib.sha256(json.dumps(body, sort_keys=True).encode()).hexdigest()
-        uniq.setdefault(k, []).append(item)
+    for (oid, key, body, meta) in pairs:
+        metas[oid] = meta
+        uniq.setdefault(key, []).append((oid, body))
     reps = [v[0] for v in uniq.values()]
     t0 = det.real_time()
-    fails, jstats = judge.judge_sharded('Judge_Udf', reps, shards=8)
+    fails, jstats = judge_texts(reps, shards=8)
     print('TLC judged %d distinct observations (of %d) in %.1fs' % (len(reps), len(pairs), det.real_time() - t0))
     sys.stdout.flush()
-    nviol = 0
     clause_count = {}
+    allfails = {}
     for v in uniq.values():
-        cl = fails.get(v[0]['id'])
+        cl = fails.get(v[0][0])
         if not cl:
             continue
-        for item in v:
-            meta = metas[item['id']]
+        for (oid, _) in v:
+            allfails[oid] = cl
+            meta = metas[oid]
             for c in cl:
                 clause_count[c] = clause_count.get(c, 0) + 1
                 sig = circumstance(c, meta)
-                new = ctx.violation(sig, {'id': item['id'], 'clauses': cl, 'facts': meta['facts']},
-                                    {'cfg': meta['cfg'], 'history': strip(meta['hist']),
-                                     'steps': meta['steps'], 'realisation': 'check_C10.REALISATION'})
-                nviol += 1 if new else 0
-    for (item, meta) in pairs[:3] + pairs[len(pairs) // 2:len(pairs) // 2 + 2]:
-        ctx.sample({'id': item['id'], 'cfg': meta['cfg'], 'history': strip(meta['hist']),
-                    'results': [s['r'] for s in meta['steps']], 'write': item['write'],
-                    'tree_recovered': len(item['rep']['tree']) if item.get('rep') else None,
-                    'failing_clauses': fails.get(item['id'], [])})
-    ndiv = len([1 for (_, m) in pairs if m.get('diverged')])
+                ctx.violation(sig, {'id': oid, 'clauses': cl, 'facts': meta['facts']},
+                              {'cfg': meta['cfg'], 'history': strip(meta['hist']),
+                               'steps': meta['steps'], 'realisation': 'check_C10.REALISATION'})
+    for (oid, _, _, meta) in pairs[:3] + pairs[len(pairs) // 2:len(pairs) // 2 + 2]:
+        ctx.sample({'id': oid, 'cfg': meta['cfg'], 'history': strip(meta['hist']),
+                    'results': [st['r'] for st in meta['steps']], 'write': meta['write'],
+                    'tree_recovered': meta['ntree'], 'failing_clauses': allfails.get(oid, [])})
+    ndiv = len([1 for p in pairs if p[3].get('diverged')])
+    acts = {}
+    for (_, h) in hists.values():
+        for a in h:
+            n = a['a'] + ('.' + a['ons'] if a['a'] == 'AddHardLink' else '') + \
+                (':refused:' + a.get('why', '') if a.get('x') == 'refuse' else '')
+            acts[n] = acts.get(n, 0) + 1
     ctx.coverage.update({
         'states': states, 'transitions': transitions,
         'traces_validated_against_impl': len(jobs),
@@ -781,6 +860,10 @@ def run(ctx):
         'judge': {'module': 'Judge_Udf', 'jvms': len(jstats),
                   'states': sum(s.get('distinct', 0) for s in jstats)},
         'clauses_failing': clause_count, 'diverged_replays': ndiv,
+        'calls_by_action': acts,
+        'images_with_fids_crossing_a_sector': len([1 for p in pairs if p[3].get('crossing')]),
+        'images_with_ucs2_names': len([1 for p in pairs if p[3].get('ucs2')]),
+        'images_after_reopen': len([1 for p in pairs if any(a['a'] == 'Reopen' for a in p[3]['hist'])]),
         'rule': 'behaviours of MC_udf.tla (all to the BFS depth, simulated beyond), each replayed under '
                 'udf and udf+joliet+rock ridge; every image written (each Reopen and the end) decoded '
                 'independently and judged by TLC on every clause of UdfVolume.tla'})
